@@ -2470,6 +2470,11 @@ func (data *Data) newShardGroup(rpi *RetentionPolicyInfo, timestamp time.Time, e
 		// Shard group range is [start, end) so add one to the max time.
 		sgi.EndTime = time.Unix(0, models.MaxNanoTime+1)
 	}
+	if sgi.StartTime.Before(time.Unix(0, models.MinNanoTime)) {
+		// an earlier instant has no nanosecond representation and would wrap when the
+		// group is marshalled
+		sgi.StartTime = time.Unix(0, models.MinNanoTime).UTC()
+	}
 	return &sgi
 }
 
@@ -2531,6 +2536,9 @@ func (data *Data) CreateIndexGroup(rpi *RetentionPolicyInfo, timestamp time.Time
 	igi.EndTime = igi.StartTime.Add(rpi.IndexGroupDuration).UTC()
 	if igi.EndTime.After(time.Unix(0, models.MaxNanoTime)) {
 		igi.EndTime = time.Unix(0, models.MaxNanoTime+1)
+	}
+	if igi.StartTime.Before(time.Unix(0, models.MinNanoTime)) {
+		igi.StartTime = time.Unix(0, models.MinNanoTime).UTC()
 	}
 	igi.EngineType = engineType
 	igi.Indexes = make([]IndexInfo, ptNum)
